@@ -23,6 +23,10 @@ T = {
  "C16_a": ("C16","internal/pass2/eval.go Pass2.Eval","in 16-bit mode the template gets a copy of the symbol table masked with 0xFFFF","ORG above 64 KiB or label values >= 0x10000 in 16-bit mode"),
  "C17_a": ("C17","internal/ocode_client/client.go SetBitMode","(written against the tree before the C17 fix) early return when the mode equals a field that was never updated","[BITS 32] after statements; superseded by C17_b on the fixed tree"),
  "C17_b": ("C17","internal/codegen/x86gen.go GenerateX86","the per-ocode mode switch compares with a cached mode that is never refreshed: after the first switch the context never switches back","[BITS 16] MOV AX,1 / [BITS 32] MOV EAX,1 gives 66 B8 ... for the second"),
+ "C01_c": ("C01","pkg/asmdb/instruction_table_fallback.go addMovFallbackEncodings","the hand-written row MOV CRn,r32 (0F 22 /r) has its Reg/Rm operand indices swapped: MOV CR3,EDX assembles to 0F 22 D3 (= MOV CR2,EBX)","MOV to a control register with CR number != register number (tests pin only MOV CR0,EAX)"),
+ "C01_d": ("C01","pkg/ng_operand/operand_types.go getImmediateSizeType","imm16 upper bound 32767 -> 0xffff: immediates 0x8000..0xFFFF are classed imm16, which Require66h reads as operand size: [BITS 32] MOV EAX,0xFFFF gets a stray 66h","32-bit operation with an immediate in 0x8000..0xFFFF"),
+ "C08_c": ("C08","internal/filefmt/coff.go CoffFormat.Write","the in-loop record counter is replaced by 4*2+len(ctx.SymTable): header NumberOfSymbols is wrong with local labels, undefined or duplicate GLOBALs","WCOFF source with a non-GLOBAL label or an undefined GLOBAL"),
+ "C08_d": ("C08","internal/filefmt/coff.go CoffFormat.Write","string table size field rounded up to an even number although no pad byte is written","WCOFF whose string table has odd length (one long name of even length)"),
  "C18_a": ("C18","pkg/ng_operand/operand_impl.go ImmediateValueFitsInSigned8Bits","lower bound -128 excluded: ADD AX,-128 uses the imm16 form","ALU instruction with immediate exactly -128"),
  "C19_a": ("C19","internal/frontend/frontend.go Exec","O_TRUNC dropped from the OpenFile flags: a shorter output leaves the tail of an older file","re-assembling to an existing, longer output file"),
 }
